@@ -273,7 +273,9 @@ func checkCell(c *core.Ctx, s site, cl cell, fn *core.Fn, b tt.Body, x *tt.X, sp
 	subjArg := map[*ast.CallExpr]ast.Expr{} // the argument that stands for the item
 	var viaExprs []ast.Expr                 // what a proxy helper does with its parameter before calling the predicate
 	predObj := types.Object(pf.Obj)
-	for _, call := range core.Calls(b.Root, info, func(call *ast.CallExpr, callee types.Object) bool { return callee == types.Object(pf.Obj) }) {
+	for _, call := range core.Calls(b.Root, info, func(call *ast.CallExpr, callee types.Object) bool {
+		return funcValue(info, fn.Decl.Body, call.Fun) == types.Object(pf.Obj)
+	}) {
 		if cl.tracked || root != nil && len(call.Args) > 0 && tt.MentionsResolved(info, b.Root, call.Args[0], root, 2) {
 			mine = append(mine, call)
 			if len(call.Args) > 0 {
@@ -321,8 +323,8 @@ func checkCell(c *core.Ctx, s site, cl cell, fn *core.Fn, b tt.Body, x *tt.X, sp
 			}
 		}
 		if len(mine) == 0 {
-			if indirect {
-				c.Undecidedf("R3.matrix", key, sink.Pos(), "%s is applied through a helper function, not analysed", cl.pred)
+			if indirect || core.Mentions(info, fn.Decl.Body, pf.Obj) {
+				c.Undecidedf("R3.matrix", key, sink.Pos(), "%s is applied through a helper function or a function value, not analysed", cl.pred)
 			} else {
 				c.Failf("R3.matrix", key, sink.Pos(), "the %s path never evaluates filter.%s for the item it sends: %s", s.name, cl.pred, cl.why)
 			}
@@ -414,9 +416,10 @@ func checkCell(c *core.Ctx, s site, cl cell, fn *core.Fn, b tt.Body, x *tt.X, sp
 	var flagObjs []types.Object
 	var assigns []ast.Node
 	type use struct {
-		call *ast.CallExpr
-		pt   cfgq.Point
-		flag types.Object
+		call   *ast.CallExpr
+		pt     cfgq.Point
+		flag   types.Object
+		decide []*cfg.Block // branches one of whose edges says something about the call's answer
 	}
 	var uses []use
 	for _, call := range mine {
@@ -425,8 +428,22 @@ func checkCell(c *core.Ctx, s site, cl cell, fn *core.Fn, b tt.Body, x *tt.X, sp
 			c.Undecidedf("R4.polarity", key, call.Pos(), "call not in the control-flow graph")
 			return
 		}
-		if pt.I == len(pt.B.Nodes)-1 && x.Cond(pt.B) != nil {
-			uses = append(uses, use{call, pt, nil})
+		// the answer decides a branch: directly, negated, compared with true/false, or through a
+		// boolean local assigned once (all seen through the branch facts)
+		var decide []*cfg.Block
+		for _, bk := range g.CFG.Blocks {
+			if !bk.Live || x.Cond(bk) == nil {
+				continue
+			}
+			for si := range bk.Succs {
+				if x.Establishes(bk, si, func(f cfgq.Fact) bool { return ast.Unparen(f.Expr) == ast.Expr(call) }) {
+					decide = append(decide, bk)
+					break
+				}
+			}
+		}
+		if len(decide) > 0 {
+			uses = append(uses, use{call, pt, nil, decide})
 			continue
 		}
 		as, isAs := pt.Node().(*ast.AssignStmt)
@@ -456,7 +473,7 @@ func checkCell(c *core.Ctx, s site, cl cell, fn *core.Fn, b tt.Body, x *tt.X, sp
 		}
 		flagObjs = append(flagObjs, v)
 		assigns = append(assigns, as)
-		uses = append(uses, use{call, pt, v})
+		uses = append(uses, use{call, pt, v, nil})
 	}
 	isAssign := func(n ast.Node) bool {
 		for _, a := range assigns {
@@ -529,12 +546,14 @@ func checkCell(c *core.Ctx, s site, cl cell, fn *core.Fn, b tt.Body, x *tt.X, sp
 	for _, u := range uses {
 		var w []string
 		if u.flag == nil {
-			for si := range u.pt.B.Succs {
-				if x.Establishes(u.pt.B, si, func(f cfgq.Fact) bool { return ast.Unparen(f.Expr) == ast.Expr(u.call) && !f.Val }) {
-					continue
-				}
-				if w == nil {
-					w = x.Reach(tt.ReachQuery{From: u.pt, FromSucc: si, Env: tt.Env{}, Target: anySink, Cut: redefines, CutBlock: nextItem})
+			for _, bk := range u.decide {
+				for si := range bk.Succs {
+					if x.Establishes(bk, si, func(f cfgq.Fact) bool { return ast.Unparen(f.Expr) == ast.Expr(u.call) && !f.Val }) {
+						continue
+					}
+					if w == nil {
+						w = x.Reach(tt.ReachQuery{From: cfgq.Point{B: bk}, FromSucc: si, Env: tt.Env{}, Target: anySink, Cut: redefines, CutBlock: nextItem})
+					}
 				}
 			}
 		} else {
@@ -689,6 +708,23 @@ func guardedByMention(info *types.Info, x *tt.X, n ast.Node, names ...string) bo
 		return hit
 	})
 	return ok
+}
+
+// funcValue returns the function a callee expression denotes, also through a local that was
+// assigned that function once (`drop := filter.FilterCommands; drop(cmd)`).
+func funcValue(info *types.Info, root ast.Node, fun ast.Expr) types.Object {
+	for depth := 0; depth < 3; depth++ {
+		o := core.ObjOf(info, ast.Unparen(fun))
+		if f, ok := o.(*types.Func); ok {
+			return f
+		}
+		d, ok := tt.SingleDef(info, root, ast.Unparen(fun))
+		if !ok || d.Rhs == nil || d.Index != -1 {
+			return o
+		}
+		fun = d.Rhs
+	}
+	return nil
 }
 
 func viaText(v string) string {
